@@ -7,12 +7,18 @@
 #include "CppUTest/TestPlugin.h"
 
 static std::vector<std::string> preLog, postLog;
+static TestRegistry* theReg = NULL;
 class RecPlugin : public TestPlugin
 {
 public:
     std::string nm;
-    explicit RecPlugin(const std::string& n) : TestPlugin(n.c_str()), nm(n) {}
-    void preTestAction(UtestShell&, TestResult&) CPPUTEST_OVERRIDE { preLog.push_back(nm); }
+    bool removeMyself;      // armed by "preremove": a one-shot plugin that takes itself out of the registry inside its own pre action
+    explicit RecPlugin(const std::string& n) : TestPlugin(n.c_str()), nm(n), removeMyself(false) {}
+    void preTestAction(UtestShell&, TestResult&) CPPUTEST_OVERRIDE
+    {
+        preLog.push_back(nm);
+        if (removeMyself) { removeMyself = false; theReg->removePluginByName(nm.c_str()); }
+    }
     void postTestAction(UtestShell&, TestResult&) CPPUTEST_OVERRIDE { postLog.push_back(nm); }
 };
 static std::string arr(const std::vector<std::string>& v)
@@ -38,6 +44,7 @@ int main(int argc, char** argv)
         // removing and installing it again is what a program does with its static plugin objects
         if (!objs.count(name)) objs[name] = new RecPlugin(name);
         if (f[0] == "install") reg->installPlugin(objs[name]);
+        else if (f[0] == "preremove") { TestPlugin* q = reg->getPluginByName(name.c_str()); objs[name]->removeMyself = (q == objs[name] && objs[name]->isEnabled()); }
         else if (f[0] == "objenable") objs[name]->enable();
         else if (f[0] == "objdisable") objs[name]->disable();
         else if (f[0] == "remove") reg->removePluginByName(name.c_str());
@@ -47,6 +54,7 @@ int main(int argc, char** argv)
             else res = "missing";
         } else { fprintf(out, "{\"op\":\"harness-error\",\"what\":\"unknown op\"}\n"); break; }
         preLog.clear(); postLog.clear();
+        theReg = reg;
         reg->getFirstPlugin()->runAllPreTestAction(shell, result);
         reg->getFirstPlugin()->runAllPostTestAction(shell, result);
         fprintf(out, "{\"op\":%s,\"name\":%s,\"res\":%s,\"count\":%d,\"isen\":%s,\"pre\":%s,\"post\":%s}\n", vh_jstr(f[0]).c_str(), vh_jstr(name).c_str(), vh_jstr(res).c_str(),
